@@ -636,3 +636,136 @@ def jobs(tier):
     out.append(dict(id='index.lookup_during_replace', func='ob_index_lookup_replace', params=dict(N=1, policy='none'), tags=['C12'], functions=INDEX_F + ['core.Cache.get'],
                     weight=5))
     return out
+
+
+# ------------------------------------------------------------------ transaction blocks of the persistent types (C06 through C11 / C12)
+
+class _Boom(Exception):
+    pass
+
+
+def _apply_deque(d, op, v):
+    if op in ('append', 'appendleft'):
+        return getattr(d, op)(v)
+    return getattr(d, op)()
+
+
+def _apply_index(d, op, k, v):
+    if op == 'setitem':
+        d[k] = v
+    elif op == 'delitem':
+        del d[k]
+    elif op == 'pop':
+        return d.pop(k)
+    elif op == 'popitem':
+        return d.popitem()
+    elif op == 'setdefault':
+        return d.setdefault(k, v)
+    elif op == 'incr':  # the documented idiom: mapping[k] = mapping.get(k, 0) + v
+        d[k] = d.get(k, 0) + v
+    else:
+        raise ValueError(op)
+
+
+@directive_aware
+def ob_persist_block(w, P):
+    """`with deque.transact():` / `with index.transact():` around two real operations; the block raises after a
+    symbolic number of them, completes, or (crash=True) the process is killed at a symbolic event inside it.  The
+    structure afterwards is the one before the block (abort, kill before COMMIT) or the one the reference type
+    reaches by running the whole block (completion, kill after COMMIT) -- never a part of the block."""
+    from obligations.cache_ops import Outcome
+    L = w.L
+    kind = P['kind']
+    ops = P['ops'].split('+')
+    P = dict(P)
+    if kind == 'deque':
+        x, contents = deque_scn(w, P)
+        real = L.persistent.Deque.fromcache(x.c)
+        ref = collections.deque(contents)
+        dump = lambda d: list(d)
+        recovered = lambda: list(L.persistent.Deque.fromcache(w.clone_handle(x.c)))
+        ks = [None] * len(ops)
+    else:
+        x, contents = index_scn(w, P)
+        real = L.persistent.Index.fromcache(x.c)
+        ref = collections.OrderedDict(contents)
+        dump = lambda d: list(d.items())
+        recovered = lambda: list(L.persistent.Index.fromcache(w.clone_handle(x.c)).items())
+        ks = [pick_int(x, 'key%d' % i, 0, P['N'] + 1) for i in range(len(ops))]
+    x.P = P
+    vs = [x.s.v_int('val%d' % i, -2 ** 30, 2 ** 30) for i in range(len(ops))]
+    raise_at = len(ops) if P.get('crash') else pick_int(x, 'raise_at', 0, len(ops))  # == len(ops): the block completes
+    before = dump(ref)
+
+    def run_block(d, with_txn):
+        def inner():
+            for i, op in enumerate(ops):
+                if raise_at == i:
+                    raise _Boom()
+                if kind == 'deque':
+                    _apply_deque(d, op, vs[i])
+                else:
+                    _apply_index(d, op, ks[i], vs[i])
+        if with_txn:
+            with d.transact():
+                inner()
+        else:
+            inner()
+    try:
+        run_block(ref, False)
+        ref_raised = None
+    except (_Boom, IndexError, KeyError) as e:
+        ref_raised = type(e)
+    after = dump(ref) if ref_raised is None else before
+    tag = 'C06,C11' if kind == 'deque' else 'C06,C12'
+    if P.get('crash'):
+        def action():
+            try:
+                run_block(real, True)
+            except (_Boom, IndexError, KeyError):
+                pass
+        try:
+            x.call(action)
+        except Outcome as o:
+            rec = recovered()
+            cl = list(o.clauses)
+            cl.append(('C07,' + tag, 'a %s transaction block interrupted by a kill took effect completely or not at all' % kind, Or(vals_eq(rec, before), vals_eq(rec, after))))
+            raise Outcome(cl)
+        return x.result()
+    x.begin()
+    try:
+        run_block(real, True)
+        raised = None
+    except (_Boom, IndexError, KeyError) as e:
+        raised = type(e)
+    x.end()
+    x.add(tag, 'the block raises what the same operations raise on the reference type', raised is ref_raised)
+    flag('block_raised' if raised else 'block_committed')
+    x.add(tag, 'a block that raised leaves the %s exactly as before; a block that completed leaves what the reference type holds' % kind, vals_eq(dump(real), after))
+    x.add(tag, 'the transaction is closed when the block exits', x.c._txn_id is None)
+    log = [d for (_, k_, d) in w.log if k_ == 'sql']
+    x.add(tag, 'one database transaction per block', sum(1 for d in log if d.startswith('BEGIN')) == 1 and sum(1 for d in log if d.startswith(('COMMIT', 'ROLLBACK'))) == 1)
+    x.add(tag + ',C08', 'counters match', state.inv_table(x.T1))
+    return x.result()
+
+
+PERSIST_BLOCKS = [('deque', 'pop+appendleft'), ('deque', 'popleft+append'), ('deque', 'append+append'), ('deque', 'popleft+popleft'),
+                  ('index', 'incr+incr'), ('index', 'pop+setitem'), ('index', 'setitem+delitem'), ('index', 'popitem+setdefault')]
+
+_jobs3 = jobs
+
+
+def jobs(tier):
+    out = _jobs3(tier)
+    for kind, ops in PERSIST_BLOCKS:
+        for N in ({'deque': [2], 'index': [1]} if tier == 'quick' else {'deque': [2, 3], 'index': [1, 2]})[kind]:
+            t = 'C11' if kind == 'deque' else 'C12'
+            out.append(dict(id='%s.block.%s.N=%d' % (kind, ops, N), func='ob_persist_block', params=dict(N=N, kind=kind, ops=ops, policy='none'), tags=['C06', t, 'C08'],
+                            functions=(DEQUE_F if kind == 'deque' else INDEX_F) + ['persistent.Deque.transact', 'persistent.Index.transact', 'core.Cache.transact', 'core.Cache._transact'],
+                            weight=N * 4, must_reach=['block_raised', 'block_committed']))
+    for kind, ops in PERSIST_BLOCKS:
+        t = 'C11' if kind == 'deque' else 'C12'
+        out.append(dict(id='%s.block.kill.%s' % (kind, ops), func='ob_persist_block', params=dict(N=2 if kind == 'deque' or tier != 'quick' else 1, kind=kind, ops=ops, policy='none', crash=True), tags=['C07', 'C06', t],
+                        functions=(DEQUE_F if kind == 'deque' else INDEX_F) + ['persistent.Deque.transact', 'persistent.Index.transact', 'core.Cache._transact'],
+                        weight=60, must_reach=['crashed']))
+    return out
